@@ -45,6 +45,9 @@
 #include "agent.h"
 #include "candidate-priv.h"
 
+/* A server that keeps answering 401/438 must not keep gathering alive forever */
+#define NICE_DISCOVERY_MAX_AUTH_RETRIES 5
+
 typedef struct
 {
   NiceCandidateType type;   /* candidate type STUN or TURN */
@@ -53,6 +56,7 @@ typedef struct
   gint64 next_tick;       /* next tick timestamp */
   gboolean pending;         /* is discovery in progress? */
   gboolean done;            /* is discovery complete? */
+  guint auth_retries;       /* requests re-sent after a 401/438 answer */
   guint stream_id;
   guint component_id;
   TurnServer *turn;
